@@ -188,6 +188,10 @@ func (d *Dialer) Dial(ctx context.Context, addr jid.JID) (net.Conn, error) {
 			return conn, err
 		}
 	}
+	if conn == nil && err == nil {
+		// Every endpoint was skipped (insecure ones are, by default).
+		err = fmt.Errorf("websocket: no usable XMPP websocket endpoint found on %s", addr.Domainpart())
+	}
 	return conn, err
 }
 
